@@ -13,6 +13,7 @@ import (
 	"github.com/kardiachain/go-kardia/configs"
 	"github.com/kardiachain/go-kardia/kai/accounts/abi"
 	"github.com/kardiachain/go-kardia/kai/kaidb"
+	"github.com/kardiachain/go-kardia/kai/kaidb/memorydb"
 	"github.com/kardiachain/go-kardia/kai/rawdb"
 	"github.com/kardiachain/go-kardia/kvm"
 	"github.com/kardiachain/go-kardia/lib/common"
@@ -285,12 +286,24 @@ func runScenario(cs *core.Case, r *rand.Rand, o scenarioOpts, tag string) *finge
 	creationContracts(w)
 	if o.Long != nil && o.Heights > 40 {
 		prefillBallast(w, ballastPrefill)
+		prefillCrowd(w)
 	}
 	gen := chainkit.Genesis(w, o.Powers, galaxias)
 	rs := &replicaSet{cfgs: append([]repCfg(nil), o.Replicas...)}
 	defer rs.close()
-	for _, cfg := range o.Replicas {
-		ch, err := chainkit.New(gen, o.NVals, nil, cfg.Cache, cfg.Name)
+	var ct *crashTracker
+	for i, cfg := range o.Replicas {
+		var base kaidb.Database
+		var recLog *netsim.DurLog
+		if o.Long != nil && o.Long.Crash != nil && i == o.Long.Crash.Replica {
+			// the replica crash images are taken of (crash.go): every durable unit it writes is recorded
+			recLog = &netsim.DurLog{}
+			base = &netsim.RecDB{Database: memorydb.New(), Log: recLog}
+		}
+		ch, err := chainkit.New(gen, o.NVals, base, cfg.Cache, cfg.Name)
+		if err == nil && recLog != nil {
+			ct = newCrashTracker(o.Long.Crash, cfg, recLog, ch)
+		}
 		if err != nil {
 			run.Inconclusive(fmt.Sprintf("cannot build replica %s: %v", cfg.Name, err))
 			return nil
@@ -393,6 +406,9 @@ func runScenario(cs *core.Case, r *rand.Rand, o scenarioOpts, tag string) *finge
 		rs.restarts[i]++
 		rs.lastRestart[i] = h
 		run.Count("replicas_reopened", 1)
+		if ct != nil && i == ct.plan.Replica {
+			ct.stops = append(ct.stops, h)
+		}
 		if after := canonState(nw.State); maskTotalTx(after) != maskTotalTx(before) {
 			// the store's save/load is C14's subject; here it matters only through what follows (block accepted? same result?)
 			run.Count("reopened_consensus_state_differs_from_memory", 1)
@@ -566,7 +582,13 @@ func runScenario(cs *core.Case, r *rand.Rand, o scenarioOpts, tag string) *finge
 			ch := rs.chains[i]
 			bg := rs.base[i].Snap && rs.base[i].Cache != nil && !rs.base[i].Cache.SnapshotWait
 			genBefore := bg && generatorRunning(ch)
+			if ct != nil && i == ct.plan.Replica {
+				ct.begin(h)
+			}
 			err := ch.Apply(blk, ps, seen)
+			if ct != nil && i == ct.plan.Replica {
+				ct.done(h)
+			}
 			if genBefore {
 				run.Count("blocks_started_while_the_snapshot_generator_was_running", 1)
 				if generatorRunning(ch) {
@@ -684,6 +706,10 @@ func runScenario(cs *core.Case, r *rand.Rand, o scenarioOpts, tag string) *finge
 				run.Count("comparisons_snapshot_vs_trie_only", 1)
 			}
 		}
+		if ct != nil {
+			ct.refs = append(ct.refs, crashRef{blk: blk, ps: ps, seen: seen, appHash: rs.chains[0].State.AppHash, info: x0.info, pub: x0.pub, appvals: x0.appvals,
+				state: x0.state, loaded: x0.loaded, st: rs.chains[0].State.Copy()})
+		}
 		// ---- what was reached
 		story := readStory(x0.bi)
 		run.Count("contract_creations_through_create2", len(story.Created))
@@ -770,6 +796,9 @@ func runScenario(cs *core.Case, r *rand.Rand, o scenarioOpts, tag string) *finge
 	}
 	if lo != nil {
 		lo.finish(o.Heights)
+	}
+	if ct != nil && !ct.run(cs, gen, o.NVals, wit) {
+		return nil
 	}
 	if (cs.I < 2 && tag == "first") || (cs.I == 0 && (tag == "corpus" || tag == "valreports" || tag == "long")) {
 		var hs []map[string]interface{}
@@ -858,7 +887,7 @@ type planOpts struct {
 var forgeStep = &txgen.TxSpec{Class: "forge-plan"}
 
 func isDirected(class string) bool {
-	return strings.HasPrefix(class, "churn-") || strings.HasPrefix(class, "phoenix-") || strings.HasPrefix(class, "forge-") || class == "ballast"
+	return strings.HasPrefix(class, "churn-") || strings.HasPrefix(class, "phoenix-") || strings.HasPrefix(class, "forge-") || class == "ballast" || class == "spray"
 }
 
 // planTxs draws the transactions of one block from the head state of a replica, plus calls of the
